@@ -228,6 +228,10 @@ func (c *c06Case) Run(ctx *core.Ctx) {
 					titles = append(titles, t)
 				}
 			}
+			if c.Inst == "lines" && def != "plain" {
+				// every slot template on a line of its own: the white space between them is nobody's content
+				return "<template include=\"c.vuego\">\n  " + hs + "\n  " + ds + "\n\n  " + fs + "\n</template>", ht, dt, ft, titles
+			}
 			return `<template include="c.vuego">` + hs + ds + fs + `</template>`, ht, dt, ft, titles
 		}
 		inc, h, d, f, titles := build(c.Hdr, c.Def, c.Ftr, c.Kind, "")
@@ -616,7 +620,7 @@ func init() {
 		ID:        "C06",
 		Level:     "exploration",
 		CPUBudget: 10,
-		Rule: "component with header/default/footer slots (fallback on two of them) used by includers supplying every subset in every form (v-slot:, #, plain children, v-slot, v-slot:default) x 4 content kinds (static, {{ }} of an includer variable, :attr, text) x 6 instance arrangements (incl. an include tag carrying v-if / v-else); scoped slots (4 components incl. slot in v-for) x {named var, destructured, fallback, plain}; same slot used twice; nested components (5 arrangements); layout-inherited slots (also with props the layout's slot binds, declared by name or destructured, and never rendered a second time in the page content); slot names written with capital letters; components whose prop / front-matter key / loop variable / template variable has the name of the includer's variable that the content reads; includer variables that are fields of struct root data (by JSON tag, by Go name, hidden by the tag) read by named, default and per-row scoped slot content as outside the include tag; " +
+		Rule: "component with header/default/footer slots (fallback on two of them) used by includers supplying every subset in every form (v-slot:, #, plain children, v-slot, v-slot:default) x 4 content kinds (static, {{ }} of an includer variable, :attr, text) x 7 instance arrangements (incl. an include tag carrying v-if / v-else, and every slot template on a line of its own); scoped slots (4 components incl. slot in v-for) x {named var, destructured, fallback, plain}; same slot used twice; nested components (5 arrangements); layout-inherited slots (also with props the layout's slot binds, declared by name or destructured, and never rendered a second time in the page content); slot names written with capital letters; components whose prop / front-matter key / loop variable / template variable has the name of the includer's variable that the content reads; includer variables that are fields of struct root data (by JSON tag, by Go name, hidden by the tag) read by named, default and per-row scoped slot content as outside the include tag; " +
 			"every case also right after a render (on another engine) that passes content for all those slot names to a component and through a layout to the components the layout includes; " +
 			"wide part: components with 1..13 named slots of which the includer fills the even / odd / all ones; whitespace part: content whose parts are separated by a space, a newline or a non-breaking space, content that is a non-breaking space only, padded and blank content, supplied plain / in a v-slot template / for a named slot to a slot inside <pre>, with exact text; " +
 			"oracle: expected normalised text (and bound attributes) at every slot position. non-trivial = all",
@@ -637,7 +641,7 @@ func init() {
 				for _, d := range []string{"none", "plain", "vslot", "vslotdefault", "hash"} {
 					for _, f := range []string{"none", "vslot", "hash"} {
 						for _, k := range []string{"static", "dyn", "attr", "text"} {
-							for _, inst := range []string{"one", "two-empty", "two-other", "empty-first", "if-true", "else"} {
+							for _, inst := range []string{"one", "two-empty", "two-other", "empty-first", "if-true", "else", "lines"} {
 								emit(&c06Case{Part: "k1", Hdr: h, Def: d, Ftr: f, Kind: k, Inst: inst})
 							}
 						}
